@@ -491,6 +491,26 @@ def extract_until(
         )
 
 
+def _errors_below(context: Context) -> Iterator[Exception]:
+    """Yield the errors recorded on the stacks that hang off *context*
+    (its inner stack and child task stacks, and recursively the contexts
+    of their frames and its child contexts)."""
+    stacks: List[Stack] = []
+    if context.inner_stack is not None:
+        stacks.append(context.inner_stack)
+    for child in context.children:
+        if isinstance(child, Stack):
+            stacks.append(child)
+        else:
+            yield from _errors_below(child)
+    for stack in stacks:
+        if stack.error is not None:
+            yield stack.error
+        for frame in stack.frames:
+            for subcontext in frame.contexts:
+                yield from _errors_below(subcontext)
+
+
 def fill_context(context: Context) -> None:
     """Augment the given newly-constructed `Context` object using the
     context manager hooks (:func:`unwrap_context` and :func:`elaborate_context`),
@@ -521,8 +541,7 @@ def fill_context(context: Context) -> None:
             # The inner manager replaces the outer one entirely, including
             # whatever stack was extracted to describe the outer one. If an
             # error was recorded on that stack, it still needs to be reported.
-            if context.inner_stack is not None and context.inner_stack.error is not None:
-                discarded_errors.append(context.inner_stack.error)
+            discarded_errors.extend(_errors_below(context))
             context.obj = inner_mgr
             context.inner_stack = None
             context.children = ()
